@@ -4,6 +4,10 @@ import json, os, sys
 HERE = os.path.dirname(os.path.abspath(__file__))
 
 CHECKS = {
+ 'C13': dict(technique='runtime monitor: completeness/consistency predicate over every sample dict from gen_symbols_samples (direct calls on generated DAGs in all declaration orders) and from a tap on the binding the graders use; closed-form references for dependent formulas; recording user functions',
+             text='Exploration by runtime monitoring: dependency DAGs of up to 8 variables in every declaration order (<=5 variables exhaustively), cyclic/dangling/failing-formula variants (must be ConfigError within the CPU budget), grader calls with numbered variables (negative and multi-digit indices, colliding plain names), dependent chains declared in random order and sibling formulas; every sample dict seen is checked for missing variables/constants, sampler membership and dependent-value consistency on the same sample.',
+             note='Trusted: template formulas with closed-form Python references; the tap is a pass-through wrapper of math_helpers.gen_symbols_samples.',
+             ref='DESIGN.md section 4, C13'),
  'C12': dict(technique='runtime monitor: membership predicates from the documentation applied to every gen_sample() value over the sampler option grids; drawn random functions evaluated (and re-evaluated) at random points',
              text='Exploration by runtime monitoring: every draw of every sampler configuration on the grids (intervals incl. reversed/degenerate, rectangles, sectors mod 2pi, discrete sets, all 288 SquareMatrices option combinations of which the constructor accepts 214, vectors/matrices/tensors x norm ranges x triangular, identity multiples over all scalar samplers, 648 RandomFunction configurations) is checked for type, shape, realness, range, norm, symmetry, trace, determinant; integer endpoints must be attained; random functions must be fixed, of declared arity/shape and within center +/- amplitude.',
              note='Trusted: numpy linear algebra for the predicates; tolerances of R7; Orthogonal/UnitaryMatrices draws not exercised (scipy absent).',
